@@ -1,0 +1,90 @@
+//go:build verif
+
+package statet
+
+// BOUNDED stand-ins (never counted as proved) for the loop-based traversals of StateT — properties C02 / C17:
+// FoldM / TraverseSeq / TraverseSlice / Traverse / Sequence on literal inputs of length 3 with symbolic elements,
+// callbacks and initial state, compared (result, final state AND callback trace) with the explicit program that
+// threads the state left to right and stops at the first failing step.
+
+//@ import "github.com/csgura/fp/iterator"
+//
+//@ ghost
+//@ func specFoldM3[S, A, B any](a, b, c A, z B, f func(B, A) fp.StateT[S, B], s S) verifspec.Pair[fp.Try[B], S] {
+//@ 	t1, c1 := f(z, a)(s)
+//@ 	if !t1.IsSuccess() {
+//@ 		return verifspec.P2(t1, c1)
+//@ 	}
+//@ 	t2, c2 := f(t1.Get(), b)(c1)
+//@ 	if !t2.IsSuccess() {
+//@ 		return verifspec.P2(t2, c2)
+//@ 	}
+//@ 	return verifspec.P2(f(t2.Get(), c)(c2))
+//@ }
+//@ func specTraverse3[S, A, R any](a, b, c A, fn func(A) fp.StateT[S, R], s S) verifspec.Pair[fp.Try[fp.Seq[R]], S] {
+//@ 	r1, c1 := fn(a)(s)
+//@ 	if !r1.IsSuccess() {
+//@ 		return verifspec.P2(fp.Failure[fp.Seq[R]](r1.Failed().Get()), c1)
+//@ 	}
+//@ 	r2, c2 := fn(b)(c1)
+//@ 	if !r2.IsSuccess() {
+//@ 		return verifspec.P2(fp.Failure[fp.Seq[R]](r2.Failed().Get()), c2)
+//@ 	}
+//@ 	r3, c3 := fn(c)(c2)
+//@ 	if !r3.IsSuccess() {
+//@ 		return verifspec.P2(fp.Failure[fp.Seq[R]](r3.Failed().Get()), c3)
+//@ 	}
+//@ 	return verifspec.P2(fp.Success(fp.Seq[R]{r1.Get(), r2.Get(), r3.Get()}), c3)
+//@ }
+//@ func specSequence3[S, A any](s0, s1, s2 fp.StateT[S, A], s S) verifspec.Pair[fp.Try[fp.Seq[A]], S] {
+//@ 	r1, c1 := s0(s)
+//@ 	if !r1.IsSuccess() {
+//@ 		return verifspec.P2(fp.Failure[fp.Seq[A]](r1.Failed().Get()), c1)
+//@ 	}
+//@ 	r2, c2 := s1(c1)
+//@ 	if !r2.IsSuccess() {
+//@ 		return verifspec.P2(fp.Failure[fp.Seq[A]](r2.Failed().Get()), c2)
+//@ 	}
+//@ 	r3, c3 := s2(c2)
+//@ 	if !r3.IsSuccess() {
+//@ 		return verifspec.P2(fp.Failure[fp.Seq[A]](r3.Failed().Get()), c3)
+//@ 	}
+//@ 	return verifspec.P2(fp.Success(fp.Seq[A]{r1.Get(), r2.Get(), r3.Get()}), c3)
+//@ }
+//@ func seqOfSliceS[S, R any](t fp.Try[[]R], s S) verifspec.Pair[fp.Try[fp.Seq[R]], S] {
+//@ 	if !t.IsSuccess() {
+//@ 		return verifspec.P2(fp.Failure[fp.Seq[R]](t.Failed().Get()), s)
+//@ 	}
+//@ 	return verifspec.P2(fp.Success(fp.Seq[R](t.Get())), s)
+//@ }
+//@ func seqOfIterS[S, R any](t fp.Try[fp.Iterator[R]], s S) verifspec.Pair[fp.Try[fp.Seq[R]], S] {
+//@ 	if !t.IsSuccess() {
+//@ 		return verifspec.P2(fp.Failure[fp.Seq[R]](t.Failed().Get()), s)
+//@ 	}
+//@ 	return verifspec.P2(fp.Success(fp.Seq[R](t.Get().ToSeq())), s)
+//@ }
+//@ end
+//
+//@ lemma stateFoldM3[S, A, B any](a, b, c A, z B, f func(B, A) fp.StateT[S, B], s S)
+//@   prop C02 C17
+//@   option unroll
+//@   ensures EqT(verifspec.P2(FoldM(fp.IteratorOfSeq(fp.Seq[A]{a, b, c}), z, f)(s)), specFoldM3(a, b, c, z, f, s))
+//@   tag stateThreadedFirstFailureStops
+//
+//@ lemma stateTraverse3[S, A, R any](a, b, c A, fn func(A) fp.StateT[S, R], s S)
+//@   prop C02 C17
+//@   option unroll
+//@   ensures EqT(verifspec.P2(TraverseSeq(fp.Seq[A]{a, b, c}, fn)(s)), specTraverse3(a, b, c, fn, s))
+//@   tag seq
+//@   ensures EqT(seqOfSliceS(TraverseSlice([]A{a, b, c}, fn)(s)), specTraverse3(a, b, c, fn, s))
+//@   tag slice
+//@   ensures EqT(seqOfIterS(Traverse(fp.IteratorOfSeq(fp.Seq[A]{a, b, c}), fn)(s)), specTraverse3(a, b, c, fn, s))
+//@   tag iterator
+//
+//@ lemma stateSequence3[S, A any](s0, s1, s2 fp.StateT[S, A], s S)
+//@   prop C02 C17
+//@   option unroll
+//@   ensures EqT(seqOfSliceS(Sequence([]fp.StateT[S, A]{s0, s1, s2})(s)), specSequence3(s0, s1, s2, s))
+//@   tag slice
+//@   ensures EqT(seqOfIterS(SequenceIterator(iterator.Of(s0, s1, s2))(s)), specSequence3(s0, s1, s2, s))
+//@   tag iterator
